@@ -57,8 +57,18 @@ def c07_r2(ctx):
     seg = prog.cls("codec.whoosh3.W3Segment")
     dset = seg.methods["delete_document"]
     ctx.saw(dset)
-    t3 = norm.stmt_text(dset.node)
-    ctx.ob(dset, "self._deleted.add(docnum)" in t3, "W3Segment.delete_document adds to the segment's own deleted set")
+    # the receiver of .add(docnum) is self._deleted, or a local that every binding ties to self._deleted (`d = self._deleted`,
+    # `d = self._deleted = set()`)
+    def _is_deleted_set(e):
+        if norm.canon(e) == "self._deleted":
+            return True
+        if not isinstance(e, ast.Name):
+            return False
+        binds = [st for st in ast.walk(dset.node) if isinstance(st, ast.Assign) and any(isinstance(t, ast.Name) and t.id == e.id for t in st.targets)]
+        return bool(binds) and all(norm.canon(st.value) == "self._deleted" or any(norm.canon(t) == "self._deleted" for t in st.targets)
+                                   for st in binds)
+    adds = [c for c in find_calls(dset, "add") if len(c.args) == 1 and norm.canon(c.args[0]) == dset.params[1] and _is_deleted_set(norm.receiver(c))]
+    ctx.ob(dset, bool(adds), "W3Segment.delete_document adds to the segment's own deleted set")
     for m, want in (("is_deleted", "docnum in self._deleted"), ("deleted_count", "len(self._deleted)"), ("deleted_docs", "self._deleted")):
         f = seg.methods.get(m)
         if f is None:
